@@ -11,10 +11,65 @@
 
 using namespace verif;
 
+// ---- crash guard for IN-PROCESS harnesses ----------------------------------------------------------------------------
+// A failed quill assert, a sanitizer abort or a memory error inside an in-process case would end the driver itself and
+// the failing case would be lost ("infrastructure failure"). The guard turns the death into an ordinary failing case:
+// it writes the replay file of the case that was running (unshrunk) and the statistics, and exits 1; in replay mode
+// it prints REPLAY-FAIL and exits 1. Not async-signal-safe in the strict sense; the process is dying anyway and the
+// handler runs at most once. Harnesses with a guard of their own (fmtcat) install theirs later and win.
+namespace
+{
+struct Guard
+{
+  bool replay_mode{false};
+  std::vector<uint32_t> const* vec{nullptr};
+  Args const* args{nullptr};
+  char const* harness{""};
+  Stats* stats{nullptr};
+  std::chrono::steady_clock::time_point t0;
+  volatile sig_atomic_t dying{0};
+} g_guard;
+
+void crash_guard(int sig)
+{
+  if (g_guard.dying || g_guard.vec == nullptr) { signal(sig, SIG_DFL); raise(sig); _exit(128 + sig); }
+  g_guard.dying = 1;
+  std::string msg = "process died inside the case (signal " + std::to_string(sig) +
+    ": failed assert, sanitizer abort or memory error; see the child's stderr above)";
+  if (g_guard.replay_mode)
+  {
+    std::printf("REPLAY-FAIL: %s\n", msg.c_str());
+    std::fflush(stdout);
+    _exit(1);
+  }
+  Report r;
+  r.failed = true;
+  r.message = msg;
+  Args const& a = *g_guard.args;
+  write_replay(a.replay_out, g_guard.harness, a.params, *g_guard.vec, r);
+  if (g_guard.stats && !a.out.empty())
+  {
+    g_guard.stats->account(r);
+    ++g_guard.stats->failures;
+    double wall = std::chrono::duration<double>(std::chrono::steady_clock::now() - g_guard.t0).count();
+    std::ofstream f(a.out);
+    f << g_guard.stats->to_json(g_guard.harness, a.params, a.seed, wall, msg, a.replay_out);
+  }
+  _exit(1);
+}
+
+void install_crash_guard()
+{
+  for (int sig : {SIGABRT, SIGSEGV, SIGBUS, SIGFPE, SIGILL}) signal(sig, crash_guard);
+}
+} // namespace
+
 int main(int argc, char** argv)
 {
   Args a = parse_args(argc, argv);
   HarnessInfo const info = harness_info();
+  g_guard.args = &a;
+  g_guard.harness = info.name;
 
   if (!a.replay.empty())
   {
@@ -33,7 +88,14 @@ int main(int argc, char** argv)
     }
     for (auto const& kv : a.params) p[kv.first] = kv.second; // command line overrides
     harness_init(p);
+    if (!info.fork_per_case)
+    {
+      g_guard.replay_mode = true;
+      g_guard.vec = &v;
+      install_crash_guard();
+    }
     Report r = info.fork_per_case ? execute_forked(v, info.watchdog_ms * 4) : execute_inprocess(v);
+    g_guard.vec = nullptr;
     std::printf("%s", r.render.c_str());
     if (r.failed) { std::printf("REPLAY-FAIL: %s\n", r.message.c_str()); return 1; }
     if (r.inconclusive) { std::printf("REPLAY-INCONCLUSIVE: %s\n", r.message.c_str()); return 4; }
@@ -72,6 +134,12 @@ int main(int argc, char** argv)
   auto elem = rc::gen::resize(100, rc::gen::inRange<uint32_t>(0u, 1u << 30));
   auto gen = rc::gen::scale(scale, rc::gen::container<std::vector<uint32_t>>(elem));
 
+  if (!info.fork_per_case)
+  {
+    g_guard.stats = &st;
+    g_guard.t0 = t0;
+    install_crash_guard();
+  }
   bool ok = rc::check(std::string{"verif "} + info.name,
                       [&]()
                       {
@@ -87,7 +155,9 @@ int main(int argc, char** argv)
                           double sel = std::chrono::duration<double>(std::chrono::steady_clock::now() - t_first_fail).count();
                           if (sel > a.shrink_budget) { ++shrink_skipped; return; }
                         }
+                        g_guard.vec = &v;
                         Report r = info.fork_per_case ? execute_forked(v, info.watchdog_ms) : execute_inprocess(v);
+                        g_guard.vec = nullptr;
                         st.account(r);
                         if (r.inconclusive && !a.replay_out.empty() && st.inconclusive == 1)
                         {
